@@ -413,4 +413,66 @@ theorem quiescent_no_lost_wakeup (hcap : 0 < cap) (h : Reach cap pp pc s) (hq : 
       · exact hn o rfl rfl
 
 
+/-! ## Non-vacuity: concrete reachable states (capacity 1, `send 1 ‖ recv`) -/
+
+theorem reach_of_run {tr : List (Role × Label)} : ∀ {s0 s : State}, Reach cap pp pc s0 → run s0 tr = some s → Reach cap pp pc s := by
+  induction tr with
+  | nil => intro s0 s h0 h; simp [run] at h; subst h; exact h0
+  | cons a rest ih =>
+    intro s0 s h0 h
+    obtain ⟨t, l⟩ := a
+    simp only [run, Option.bind] at h
+    split at h
+    · simp at h
+    · rename_i s1 hs1; exact ih (Reach.step h0 hs1) h
+
+/-- the receiver runs alone until it parks: closed check, two empty pops, `senders_alive`, one spin,
+again, register (lock, gate := 1, unlock), fence, re-check, `senders_alive`, → `park` -/
+def trParkC : List (Role × Label) :=
+  [(.C, .call), (.C, .load (.closed .C)), (.C, .load .head), (.C, .load .tail), (.C, .load .head), (.C, .load .tail),
+   (.C, .load (.count .P)), (.C, .spin), (.C, .load .head), (.C, .load .tail), (.C, .load (.count .P)),
+   (.C, .lock .C), (.C, .store (.gate .C)), (.C, .unlock .C), (.C, .fence),
+   (.C, .load .head), (.C, .load .tail), (.C, .load (.count .P))]
+
+/-- … then the sender publishes one item: closed checks, `tail` load (slot written), `tail` store -/
+def trPublish : List (Role × Label) :=
+  [(.P, .call), (.P, .load (.closed .P)), (.P, .load (.dropped .C)), (.P, .load .tail), (.P, .store .tail)]
+
+/-- … and notifies: fence, gate read (= 1), lock, gate := 0, flag := true, unlock, unpark, return; the receiver
+wakes, swaps the flag, pops the item, notifies (gate 0) and returns it -/
+def trWake : List (Role × Label) :=
+  [(.P, .fence), (.P, .load (.gate .C)), (.P, .lock .C), (.P, .store (.gate .C)), (.P, .store (.flag .C)),
+   (.P, .unlock .C), (.P, .unpark .C), (.P, .ret),
+   (.C, .park), (.C, .swap (.flag .C)), (.C, .load .head), (.C, .load .tail), (.C, .store .head),
+   (.C, .fence), (.C, .load (.gate .P)), (.C, .ret)]
+
+/-- Non-vacuity of `no_lost_wakeup` (receiver): a reachable state in which the receiver is parked without a
+token, an item is available, and the wake is owed by the sender being between its `tail` store and the end
+of `notify_receivers`. -/
+example : ∃ s, Reach 1 [.send 1] [.recv] s ∧ (s.loc .C).m = .park ∧ s.tok .C = false ∧ s.flag .C = false ∧
+    s.head < s.tail ∧ (s.loc .P).m = .nfFence := by
+  cases hr : run (init 1 [.send 1] [.recv]) (trParkC ++ trPublish) with
+  | none => exact absurd hr (by decide)
+  | some s =>
+    refine ⟨s, reach_of_run Reach.init hr, ?_, ?_, ?_, ?_, ?_⟩
+    · have : (run (init 1 [.send 1] [.recv]) (trParkC ++ trPublish)).map (fun s => (s.loc .C).m) = some .park := by decide
+      rw [hr] at this; simpa using this
+    · have : (run (init 1 [.send 1] [.recv]) (trParkC ++ trPublish)).map (fun s => s.tok .C) = some false := by decide
+      rw [hr] at this; simpa using this
+    · have : (run (init 1 [.send 1] [.recv]) (trParkC ++ trPublish)).map (fun s => s.flag .C) = some false := by decide
+      rw [hr] at this; simpa using this
+    · have : (run (init 1 [.send 1] [.recv]) (trParkC ++ trPublish)).map (fun s => decide (s.head < s.tail)) = some true := by decide
+      rw [hr] at this; simpa using this
+    · have : (run (init 1 [.send 1] [.recv]) (trParkC ++ trPublish)).map (fun s => (s.loc .P).m) = some .nfFence := by decide
+      rw [hr] at this; simpa using this
+
+/-- the whole handshake runs in the model: the parked receiver is woken and returns the item sent. -/
+example : (run (init 1 [.send 1] [.recv]) (trParkC ++ trPublish ++ trWake)).map
+    (fun s => (s.results .P, s.results .C, s.pushed, s.popped, s.tok .C)) = some ([.ok], [.okV 1], [1], [1], false) := by decide
+
+/-- Non-vacuity of the quiescent case: the receiver parked alone (sender idle, handle alive, nothing sent) is
+quiescent-blocked with its condition false — the only kind of blocked state the theorems allow. -/
+example : (run (init 1 [] [.recv]) trParkC).map (fun s => ((s.loc .C).m, s.tok .C, decide (s.head < s.tail), s.count .P))
+    = some (.park, false, false, 1) := by decide
+
 end Fv.Props.SpscB
